@@ -165,6 +165,127 @@ def impl_pickle(cfg, o, regs2, label, rng, res, fresh):
         w.__exit__(None, None, None)
 
 
+# ---------------------------------------------------------------- cmd 23: validation of loaded node arrays
+def real_state(nodes, nil, ns):
+    """abstract node array (world.abs_spec format) -> the tuple PyTreeSpec.__setstate__ takes"""
+    out = []
+    for (kind, arity, nd, ent, cu, nl, nn, og) in nodes:
+        t = nd[0]
+        if t == 0:
+            data = None
+        elif t == 1:
+            data = [world.real_key(k) for k in nd[1:]]
+        elif t == 2:
+            data = (world.FACTORIES[nd[1]], [world.real_key(k) for k in nd[2:]])
+        elif t == 3:
+            data = world.nt_class(nd[1], max(arity, 0)) if kind == 6 else world.STRUCTSEQ[nd[1]]
+        elif t == 4:
+            data = nd[1] if len(nd) > 1 else None
+        else:
+            data = (nd[1], nd[2])
+        entries = None if ent == () else tuple(world.real_key(k) for k in ent[1:])
+        ctype = None if cu == () else world.CUST[cu[0]]
+        orig = None if og == () else [world.real_key(k) for k in og[1:]]
+        out.append((kind, arity, data, entries, ctype, nl, nn, orig))
+    return (tuple(out), bool(nil), world.NS_NAMES[ns])
+
+
+def mutate_array(rng, nodes):
+    """one or two edits of an abstract node array, staying inside what the wire format can express"""
+    nodes = [list(n) for n in nodes]
+    label = []
+    for _ in range(rng.choice([1, 1, 2])):
+        i = rng.randrange(len(nodes))
+        n = nodes[i]
+        r = rng.random()
+        if r < 0.25:
+            n[1] = max(0, n[1] + rng.choice([-1, 1, 2, 7]))
+            label.append('arity')
+        elif r < 0.45:
+            n[5] = max(0, n[5] + rng.choice([-1, 1, 3, 1000]))
+            label.append('num_leaves')
+        elif r < 0.65:
+            n[6] = max(0, n[6] + rng.choice([-1, 1, 3, 1000]))
+            label.append('num_nodes')
+        elif r < 0.75 and len(nodes) > 1:
+            del nodes[i]
+            label.append('drop_node')
+        elif r < 0.82:
+            nodes.insert(i, list(nodes[i]))
+            label.append('dup_node')
+        elif r < 0.9:
+            # shorten (or lengthen) a key list / entries / original keys of some node that has one
+            cands = [(j, fld) for j, m in enumerate(nodes) for fld in (2, 3, 7)
+                     if isinstance(m[fld], tuple) and len(m[fld]) >= 1 and m[fld][0] in (1, 2)
+                     and len(m[fld]) > (1 if m[fld][0] == 1 else 2)]
+            if cands:
+                j, fld = rng.choice(cands)
+                v = nodes[j][fld]
+                nodes[j][fld] = v[:-1] if rng.random() < 0.7 else v + ((0, 777),)
+                label.append('keys_%d' % fld)
+        else:
+            # change the kind among kinds with the same payload shape
+            k = n[0]
+            swap = {3: 4, 4: 3, 5: 8, 1: 2, 2: 1, 7: 5}     # (a deque's maxlen None is None on the wire)
+            if k in swap:
+                n[0] = swap[k]
+                label.append('kind')
+    return tuple(tuple(n) for n in nodes), '+'.join(label) or 'none'
+
+
+def run_validation(res, rng, n, limit):
+    from . import c16
+    items, cmds = [], []
+    for i in range(n):
+        cfg = gen.gen_cfg(rng, limit)
+        g = gen.TreeGen(rng, world.STRUCTSEQ_ARITY, max_nodes=rng.choice([4, 10, 20]), max_depth=rng.choice([2, 4]),
+                        max_arity=rng.choice([2, 3, 4]))
+        o = g.tree(kinds=['custom', 'dict', 'ddict', 'odict', 'tuple', 'list', 'named', 'struct', 'deque', 'none'])
+        with World(cfg) as w:
+            f = attempt(lambda: optree.tree_flatten(realize(o, random.Random(i), {}), **w.kw()))
+        if f[0] != 0:
+            continue
+        nodes, nil, ns = world.abs_spec(f[1][1])
+        if ns not in (0, 1, 2):
+            continue
+        if rng.random() < 0.15:
+            arr, label = nodes, 'unchanged'
+        else:
+            arr, label = mutate_array(rng, nodes)
+        if not arr:
+            continue
+        items.append((cfg, nil, ns, arr, label))
+        cmds.append((23, cfg, nil, ns, arr))
+        res.count('forged_' + label.split('+')[0])
+
+    def load(item):
+        cfg, nil, ns, arr, label = item
+        with World(cfg):
+            st = real_state(arr, nil, ns)
+            sp = optree.PyTreeSpec.__new__(optree.PyTreeSpec)
+            r = attempt(lambda: sp.__setstate__(st))
+            if r[0] != 0:
+                return tuple(r)
+            # accepted: the treespec must be usable
+            for op in (repr, hash, lambda s: s.children(), lambda s: s.paths(), lambda s: s.entries(),
+                       lambda s: s.unflatten(range(s.num_leaves))):
+                try:
+                    op(sp)
+                except Exception:  # noqa: BLE001
+                    pass
+            return (0,)
+    outs = c16.progress_forked(items, load, 60, res, 'loading a forged pickle state')
+    mod = runner.run_model(cmds)
+    for it, c, o, m in zip(items, cmds, outs, mod):
+        if o is None or (isinstance(o, tuple) and o and o[0] == 'died'):
+            continue
+        if isinstance(o, tuple) and o and o[0] == 'raised':
+            res.fail('loading a forged state raised outside the classified errors', repr(c)[:300], o)
+            continue
+        res.compare(c, tuple(o), m, 'cmd_validate (' + it[4] + ')')
+        res.count('load_forged_%s' % ('accepted' if o == (0,) else 'rejected%s' % (o[1],)))
+
+
 def run(res, tier, seed):
     rng = random.Random(seed * 1000003 + 11)
     limit = optree.MAX_RECURSION_DEPTH
@@ -196,6 +317,7 @@ def run(res, tier, seed):
             res.fail('pickle protocol below 2 cannot pickle a treespec', f'protocol={proto}', f'{r} K2-protocol')
     for c in cmds[:3]:
         res.sample(sx.dump(c)[:500])
+    run_validation(res, rng, 1500 if tier == 'quick' else 30000, limit)
 
 
 if __name__ == '__main__':
